@@ -19,9 +19,25 @@ thread_local! {
     static LAST_PANIC_LOCATION: RefCell<String> = RefCell::new(String::new());
 }
 
+/// every panic of every thread since the last `take_panics` (file, message skeleton): panics in the
+/// database's worker / flush threads are only visible here
+static PANIC_LOG: std::sync::Mutex<Vec<(String, String)>> = std::sync::Mutex::new(Vec::new());
+
+pub fn take_panics() -> Vec<(String, String)> {
+    std::mem::take(&mut *PANIC_LOG.lock().unwrap_or_else(|e| e.into_inner()))
+}
+pub fn panics_seen() -> usize {
+    PANIC_LOG.lock().unwrap_or_else(|e| e.into_inner()).len()
+}
+
 /// Install a panic hook that is silent but remembers `file` of the panic location (line numbers
 /// are deliberately dropped: signatures must survive unrelated edits).
 pub fn install_panic_hook() {
+    static ONCE: std::sync::Once = std::sync::Once::new();
+    ONCE.call_once(install_panic_hook_inner);
+}
+
+fn install_panic_hook_inner() {
     std::panic::set_hook(Box::new(|info| {
         let loc = info
             .location()
@@ -36,6 +52,14 @@ pub fn install_panic_hook() {
         if std::env::var("LV_PANIC_TRACE").is_ok() {
             eprintln!("panic: {}", info);
         }
+        let msg = if let Some(s) = info.payload().downcast_ref::<&str>() {
+            s.to_string()
+        } else if let Some(s) = info.payload().downcast_ref::<String>() {
+            s.clone()
+        } else {
+            "?".to_string()
+        };
+        PANIC_LOG.lock().unwrap_or_else(|e| e.into_inner()).push((loc.clone(), skeleton(&msg)));
         LAST_PANIC_LOCATION.with(|c| *c.borrow_mut() = loc);
     }));
 }
